@@ -8,6 +8,10 @@ property says must be persisted:
     subproject to the inherited value; a yielding subproject option takes the parent's value;
     --wipe re-derives everything from the recorded command lines plus the current defaults;
     a failing configure / reconfigure changes nothing.
+`default_options:` of project() are "the default it was created with": read when a (sub)project is configured for the first
+time in a build directory (setup, --wipe), never again on reconfigure.  For the top project they give the starting value of
+a built-in or project option; for a subproject a built-in named there becomes a per-subproject override (which -U drops
+like any other, and only --wipe brings back).
 Option-file edits are picked up by the next command that re-reads them and saves: `configure` with flags,
 `setup --reconfigure`, `setup --wipe` (mconf reloads changed option files; observed and documented in mconf.py).
 Values are kept as the strings a user types; `norm()` gives the comparison form of a probed real value.
@@ -105,6 +109,7 @@ class State:
         self.user: T.Dict[str, str] = {}
         self.record: T.Dict[str, str] = {}
         self.gone: T.Set[str] = set()
+        self.builtin_default: T.Dict[str, str] = {}
 
 
 def key(sub: str, name: str) -> str:
@@ -112,8 +117,10 @@ def key(sub: str, name: str) -> str:
 
 
 class Model:
-    def __init__(self, top: Files, sub: Files) -> None:
+    def __init__(self, top: Files, sub: Files, dopts: T.Optional[T.Dict[str, T.Dict[str, str]]] = None) -> None:
         self.files: T.Dict[str, Files] = {'': dict(top), 'sub': dict(sub)}
+        # default_options: of the two project() calls as currently written in the build files
+        self.dopts: T.Dict[str, T.Dict[str, str]] = dopts if dopts is not None else {'': {}, 'sub': {}}
         self.st = State()
         self.tree_exists = False       # build directory has been created (maybe emptied by a failed wipe)
 
@@ -129,15 +136,22 @@ class Model:
             return Spec(name, b['kind'], b['default'], b.get('choices'), b.get('min'), b.get('max'))
         return applied.get(sub, {}).get(name)
 
-    def _apply_files(self, st: State) -> None:
-        """update_project_options semantics for every (sub)project."""
+    def _apply_files(self, st: State, initial: bool = False, cmdline: T.Mapping[str, str] = {}) -> None:
+        """update_project_options semantics for every (sub)project; initial: first configuration (default_options apply;
+        cmdline = the options given on / recorded from the command line, which beat a subproject's own default_options:
+        Builtin-options.md, "the value is overridden in this order")."""
+        if initial:
+            st.builtin_default = {n: v for n, v in self.dopts[''].items() if n in BUILTINS}
+            for n, v in self.dopts['sub'].items():
+                if n in BUILTINS and n not in cmdline:
+                    st.user['sub:' + n] = v
         for sub in ('', 'sub'):
             new = self.files[sub]
             old = st.applied[sub]
             for name, spec in new.items():
                 k = key(sub, name)
                 if name not in old:
-                    st.created_default[k] = spec.default
+                    st.created_default[k] = self.dopts[sub].get(name, spec.default) if initial else spec.default
                     st.user.pop(k, None)
                 elif old[name].kind != spec.kind:
                     st.created_default[k] = spec.default
@@ -177,7 +191,7 @@ class Model:
         if name in BUILTINS:
             if sub:
                 return st.user.get(k, self.value(name))
-            return st.user.get(k, BUILTINS[name]['default'])
+            return st.user.get(k, st.builtin_default.get(name, BUILTINS[name]['default']))
         spec = st.applied[sub][name]
         if sub and spec.yielding and k not in st.user:
             parent = st.applied[''].get(name)
@@ -192,7 +206,7 @@ class Model:
     def setup(self, assign: T.Mapping[str, str], inject_failure: bool = False) -> bool:
         assert not self.st.configured
         st = State()
-        self._apply_files(st)
+        self._apply_files(st, initial=True, cmdline=assign)
         self.tree_exists = True
         if inject_failure or not self._check_assign(assign, st.applied):
             return False
@@ -261,7 +275,7 @@ class Model:
         record = dict(old_record)
         record.update(assign or {})
         st = State()
-        self._apply_files(st)
+        self._apply_files(st, initial=True, cmdline=record)
         st.record = record
         ok = self._check_assign(record, st.applied) and not inject_failure
         if not ok:
@@ -273,7 +287,7 @@ class Model:
             st.record = old_record      # the restored file is the old one: options given to the failed --wipe are not recorded
             self.st = st
             return False
-        st.user = dict(record)
+        st.user.update(record)
         st.configured = True
         self.st = st
         return True
